@@ -824,7 +824,8 @@ fn shuffle_worker<E: SimEnv>(seed: u64, work: &[(usize, u64)], t: &mut ShuffleTa
                         }
                     }
                     for a in 0..assets {
-                        if env.book(a).to_json(false) != tw.book(a).to_json(false) {
+                        // complete observable snapshots (records, views, queue order through hook H2), not snapshot text
+                        if env.book(a).obs() != tw.book(a).obs() {
                             fails.push(("same_state_different_permutation".into(), format!("n={} two environments with the same history, the same batch and clones of one generator ended a step in different states (asset {}): orders {:?} vs {:?}, queues {:?} vs {:?}", n, a, env.env_orders(a).iter().rev().take(6).collect::<Vec<_>>(), tw.env_orders(a).iter().rev().take(6).collect::<Vec<_>>(), env.book(a).queue(), tw.book(a).queue())));
                             twin = None;
                             break;
@@ -1083,7 +1084,7 @@ pub fn c15(ctx: &Ctx) -> i32 {
     let cov = json!({
         "evaluations": steps,
         "distinct_nontrivial": d.len(),
-        "rule": "cases = seeded simulation steps (fresh Xoroshiro128** seed per 12 steps) whose n queued instructions all have a visible processed position (rank of the time-stamp within the batch: arrival time of new orders, end time of cancellations of active orders; contents vary independently of the shuffle generator; about a third of the steps run with trading disabled, the exact twin checks always compare with a trading-enabled twin; a fifth of the environments run next to a twin with the same history, the same batches - including steps that re-price several resting orders to one price - and clones of the generator, and must end every step with identical snapshot texts); batch sizes 2..24, 32, 48, 64; separate tables for the single- and the multi-asset environment; distinct = distinct position maps (item -> processed position) observed; non-trivial = every recorded step (n >= 2)",
+        "rule": "cases = seeded simulation steps (fresh Xoroshiro128** seed per 12 steps) whose n queued instructions all have a visible processed position (rank of the time-stamp within the batch: arrival time of new orders, end time of cancellations of active orders; contents vary independently of the shuffle generator; about a third of the steps run with trading disabled, the exact twin checks always compare with a trading-enabled twin; a fifth of the environments run next to a twin with the same history, the same batches - including steps that re-price several resting orders to one price - and clones of the generator, and must end every step with identical observable snapshots (records, views, queue order)); batch sizes 2..24, 32, 48, 64; separate tables for the single- and the multi-asset environment; distinct = distinct position maps (item -> processed position) observed; non-trivial = every recorded step (n >= 2)",
         "samples": sample_perm,
         "tables": worst,
         "cells_tested": cells,
